@@ -302,4 +302,49 @@ theorem as_found_counterexample :
   refine ⟨?_, rfl, by decide, by decide⟩
   simp [f33Ops, AdmRun, Adm, G.step, G.init, Node.step, Node.init, Chain.init, txsOf, NoDup, t1, t3]
 
+
+/-! ### evaluating a fork (finding F37)
+
+`ValidateSubChain` evaluates the blocks of a fork on a check state of the common block, but the epoch evaluation inside
+it (`ApplyNewEpoch`) reads the answers the node's ceremony object holds — those of the node's OWN branch. -/
+
+/-- the chain a fork stands for: the newest `k` blocks of the running epoch replaced by the fork's blocks (oldest first) -/
+def forkChain (c : Chain) (k : Nat) (fork : List (List Tx)) : Chain :=
+  { c with cur := fork.reverse ++ c.cur.drop k }
+
+theorem txsOf_append (a b : List (List Tx)) : txsOf (a ++ b) = txsOf b ++ txsOf a := by
+  simp [txsOf, List.reverse_append, List.flatten_append]
+
+theorem txsOf_nil_of_flatten {bs : List (List Tx)} (h : bs.flatten = []) : txsOf bs = [] := by
+  unfold txsOf
+  apply List.eq_nil_of_length_eq_zero
+  have : bs.reverse.flatten.length = bs.flatten.length := by
+    simp [List.length_flatten, List.map_reverse, List.sum_reverse]
+  rw [this, h]; rfl
+
+/-- **fork_eval_same_content**: when neither the abandoned blocks of the node's branch nor the fork's blocks carry a
+recorded ceremony transaction, what the node holds IS what the fork's chain determines — the fork is evaluated as a node
+on that chain would evaluate it. -/
+theorem fork_eval_same_content (g : G) (hi : Inv g) (k : Nat) (fork : List (List Tx))
+    (hown : (g.n.chain.cur.take k).flatten = []) (hfork : fork.flatten = []) :
+    g.n.vc.mem = expected (forkChain g.n.chain k fork) := by
+  rw [hi.mem]
+  unfold expected forkChain
+  simp only
+  rw [txsOf_append, txsOf_split g.n.chain.cur k, txsOf_nil_of_flatten hown]
+  have : txsOf fork.reverse = [] := txsOf_nil_of_flatten (by
+    have : fork.reverse.flatten.length = fork.flatten.length := by
+      simp [List.length_flatten, List.map_reverse, List.sum_reverse]
+    apply List.eq_nil_of_length_eq_zero; rw [this, hfork]; rfl)
+  rw [this]
+
+/-- **fork_eval_as_found_counterexample** (finding F37): a node whose branch holds an answers transaction that the fork
+lacks evaluates the fork with an answer the fork's chain does not contain -/
+theorem fork_eval_as_found_counterexample :
+    ∃ (ops : List Op) (k : Nat) (fork : List (List Tx)), AdmRun G.init ops ∧
+      (Node.init.run true ops).vc.mem 1 1 = some 10 ∧
+      expected (forkChain (Node.init.run true ops).chain k fork) 1 1 = none := by
+  refine ⟨[.add [t1]], 1, [[]], ?_, by decide, by decide⟩
+  simp [AdmRun, Adm, G.step, G.init, Node.step, Node.init, Chain.init, txsOf, NoDup, t1]
+
 end IdenaModel.CeremonyEpoch
